@@ -209,7 +209,7 @@ theorem T_C12_backport_move (m m' : Mesh) (hb : backport m = some m')
 
 /-- One `move_to` on an aligned mesh, then `backport()`: an operation's corner changes iff it sat on the moved
     vertex; operations whose block does not contain that vertex keep all their points. -/
-theorem T_C12_backport_single_move (m0 : Mesh) (r loc : Nat) (ha : Aligned m0) (hv : m0.lists.verts ≠ []) :
+theorem T_C12_backport_single_move (m0 : Mesh) (r : Nat) (loc : Pt) (ha : Aligned m0) (hv : m0.lists.verts ≠ []) :
     let i := r % m0.lists.verts.length
     let m := moveVertex m0 r loc
     ∀ p ∈ m0.lists.blocks.zip m0.lists.assembled, ∀ o ∈ m0.depot, o.id = p.2 →
@@ -239,7 +239,7 @@ theorem T_C12_backport_single_move (m0 : Mesh) (r loc : Nat) (ha : Aligned m0) (
 
 /-- `a.move_to(b.position)` copies the coordinates: afterwards `a` is where `b` is, and moving `a` on does not move `b`
     (two vertices at one place remain two vertices). -/
-theorem T_C12_move_onto (m : Mesh) (r1 r2 loc : Nat) (hv : m.lists.verts ≠ [])
+theorem T_C12_move_onto (m : Mesh) (r1 r2 : Nat) (loc : Pt) (hv : m.lists.verts ≠ [])
     (hne : r1 % m.lists.verts.length ≠ r2 % m.lists.verts.length) :
     locOf (moveOnto m r1 r2).lists.verts (r1 % m.lists.verts.length) = locOf m.lists.verts (r2 % m.lists.verts.length) ∧
     locOf (moveVertex (moveOnto m r1 r2) r1 loc).lists.verts (r1 % m.lists.verts.length) = loc ∧
@@ -308,11 +308,11 @@ end
 
 /-! ### non-vacuity: a concrete history satisfies the hypotheses -/
 
-def exOp (id : Nat) (cs : List Nat) (left : Option String) : Op :=
+def exOp (id : Nat) (cs : List Pt) (left : Option String) : Op :=
   { id := id, corners := cs, bottomPatch := none, topPatch := none, sidePatches := [none, none, none, left],
     bottomProj := none, topProj := none, sideProj := [none, none, none, none],
     cornerProj := [[], [], [], [], [], [], [], []],
-    bottomEdges := [.line, .line, .line, .line], topEdges := [.line, .arc "a0", .line, .line],
+    bottomEdges := [.line, .line, .line, .line], topEdges := [.line, .arc ⟨11/2, 1/4, -1/8⟩, .line, .line],
     sideEdges := [.line, .line, .line, .line], chops := [[⟨"1.0", 2⟩], [⟨"1.0", 3⟩], [⟨"0.5", 1⟩, ⟨"0.5", 2⟩]], zone := "" }
 
 /-- two boxes side by side, the first one deleted, a patch type changed, one vertex moved -/
